@@ -87,7 +87,35 @@ def run(ctx):
     sjobs = []
     for i in range(nsched):
         sjobs.append((packconc.make(rng), ctx.seed * 1000 + i, os.path.join(ctx.scratch, 'pc-%d' % i), {'stick': (0.3, 0.6, 0.8)[i % 3], 'yield_io': i % 2 == 1}))
-    sres = par.pmap(packconc.run, sjobs, chunksize=4)
+    # C'. systematic single-preemption sweeps (sched.Plan): one victim thread is stopped after its k-th yield point,
+    #     for every k (quick: an even sample), while the other threads run one after the other to completion - the
+    #     reader stopped inside a load across the packer's swap, whole commits placed into every window the packer
+    #     leaves, the packer running between any two steps of a commit.  Storages with and without a blob directory
+    #     (pack hands the commit lock back at another place when there is one).
+    pjobs = []
+    nscen = 3 if q else 12
+    for si in range(nscen):
+        scen = packconc.make(rng)
+        scen['second_packer'] = False
+        scen['blob_dir'] = si % 2 == 1
+        yio = si % 3 != 2
+        names = ['packer'] + ['committer%d' % i for i in range(len(scen['committers']))] + ['reader']
+        cal = packconc.run((scen, 0, os.path.join(ctx.scratch, 'cal-%d' % si), {'plan': [], 'order': names, 'yield_io': yio}))
+        for victim in names:
+            others = [n for n in names if n != victim]
+            if victim == 'reader':
+                others.sort(key=lambda n: n != 'packer')          # the packer first
+            elif victim == 'packer':
+                others.sort(key=lambda n: not n.startswith('committer'))
+            ny = cal['yields'].get(victim, 0) + 2
+            ks = list(range(1, ny + 1))
+            cap = 30 if q else 400
+            if len(ks) > cap:
+                ks = sorted({1 + (i * (ny - 1)) // (cap - 1) for i in range(cap)})
+            for k in ks:
+                pjobs.append((scen, 0, os.path.join(ctx.scratch, 'pp-%d' % len(pjobs)),
+                              {'plan': [(victim, k)], 'order': others + [victim], 'yield_io': yio}))
+    sres = par.pmap(packconc.run, sjobs + pjobs, chunksize=4)
     good = []
     for r in sres:
         if r['outcome'] != 'ok':
@@ -103,7 +131,13 @@ def run(ctx):
         if r['outcome'] == 'ok' and not r['errors'] and r['obs'] is not None:
             good.append(r)
     cs = sd.consts('file', NOid=6, MaxTxn=20, MaxRecs=5, MaxClock=8, AtomVals=('v1', 'v2'), RefSets='AllRefs', Cls='MCClsPlain')
-    behs = sc.evaluate(ctx, 'packconc', [packconc.script_for(r) for r in good], cs) if good else []
+    # (many schedules have the same serial equivalent: TLC evaluates each distinct script once)
+    import json
+    keyed = [json.dumps(packconc.script_for(r), sort_keys=True) for r in good]
+    uniq = sorted(set(keyed))
+    ubeh = sc.evaluate(ctx, 'packconc', [json.loads(k) for k in uniq], cs) if uniq else []
+    bykey = dict(zip(uniq, ubeh))
+    behs = [bykey[k] for k in keyed]
     during = 0
     for r, beh in zip(good, behs):
         for sig, desc in packconc.judge(r, beh):
@@ -112,6 +146,7 @@ def run(ctx):
             during += 1
     return ctx.finish({
         'schedules': {'with_io_yields': sum(1 for j in sjobs if j[3].get('yield_io')), 'run': len(sres), 'judged': len(good), 'with_4_switches': during,
+                      'systematic_preemption_runs': len(pjobs), 'distinct_serial_equivalents': len(uniq),
                       'second_packer_refused': sum(1 for r in sres for n_, po in r['pack_outcomes'] if 'Already packing' in po),
                       'reads_checked': sum(len(r['reads']) for r in good)},
         'evaluations': images + cov['behaviours'] + len(sres),
@@ -127,7 +162,7 @@ def run(ctx):
                 'specified; C: a packer, 1-2 committers, a reader and sometimes a second packer run as real threads on the real '
                 'FileStorage under the cooperative scheduler (seeded, switching at lock operations and, in every second run, at every raw read/write of the data and .pack files); afterwards TLC evaluates '
                 'the serial equivalent <commits in tid order> pack(T) and the storage in memory and after reopen must answer '
-                'every query like it, every value a reader saw must be a committed revision, the second packer must be '
+                'every query like it; in addition one victim thread at a time is stopped after its k-th yield point for every k (quick: a sample) while the others run to completion, with and without a blob directory; every value a reader saw must be a committed revision, the second packer must be '
                 'refused or run after; TLC checks ZPackConc (lock hand-over with a concurrent committer, failing pack, crash) for the '
                 'atomic-swap design and exhibits the two-rename window of the code (F6); non-trivial = behaviour with >= 5 '
                 'pack crash images / with an injected pack failure',
